@@ -5,6 +5,7 @@ CONSTANTS
   InitRestated = TRUE
   OriginFromSuper = FALSE
   AllowModifyBusy = FALSE
+  SigCheck = FALSE
   Parent <- Chain3
   Mode = "clsq"
   QSels = {{1}, {2}, {3}}
